@@ -78,6 +78,18 @@ def tr_webauthn(log):
     return info
 
 
+def tr_hid(log):
+    """regenerate Generated/Hid.lean (framing constants, command bytes) from passkey-transports/src/hid.rs"""
+    import importlib.util, os
+    here = os.path.dirname(os.path.abspath(__file__))
+    spec = importlib.util.spec_from_file_location("hid_tr", os.path.join(here, "..", "..", "translate", "hid.py"))
+    m = importlib.util.module_from_spec(spec)
+    spec.loader.exec_module(m)
+    info = m.main()
+    log.write("translator hid: %s\n" % info)
+    return info
+
+
 def tr_ctap(log):
     """regenerate Generated/Ctap.lean from /repo/passkey-types/src/ctap2/*.rs"""
     import importlib.util, os
@@ -376,8 +388,10 @@ PROPS = {
     "C16": {
         "modules": ["PasskeyVerif.Props.C16"],
         "props_files": ["PasskeyVerif/Props/C16.lean"],
+        "translators": [tr_hid],
         "harness": [["gen", "C16"]],
         "trusted": COMMON_TRUSTED + [
+            "translator translate/hid.py (packet size, header sizes, packet-type bit, the continuation-packet limit of Message::new, enum Command discriminants and the TryFrom<u8> table of hid.rs; fails closed on other shapes); C16_constants ties them to the model's constants and is re-checked by the kernel on every run",
             "modelled by hand: passkey-transports/src/hid.rs (Command, headers, Message::{new,send,to_packets,init,extend}, ChannelHandler::handle_packet); HashMap modelled as a function Chan -> Option Msg",
             "writer assumed to accept whole 64-byte writes (send uses write, not write_all)",
         ],
